@@ -52,8 +52,28 @@ def gen_c11(r, n):
         if r.random() < 0.5:
             sc += [('S', 2, 'r', 10 * MS, 'f'), ('F', 2, 'g')]
         cases.append((cfg, sc))
+    # RTU framing (no transaction id): the first frame delivered while a request is outstanding decides it; a late
+    # reply to a timed-out request is taken as the reply to the next one
+    for k in (1, 2, 3):
+        for pattern in ('in-order', 'late-reply-taken-by-next', 'idle-frames', 'split'):
+            cfg = {'cap': 16, 'handles': 1, 'mt': 0, 'rmin': 20 * MS, 'rmax': 40 * MS, 'rtu': 1}
+            sc = cl.connected_prefix()
+            if pattern == 'idle-frames':
+                sc += [('F', 0, 'g'), ('P', 0, 'e'), ('Q',)]
+            for i in range(k):
+                sc.append(('S', i, 'r', 10 * MS, 'fcx'[i % 3]))
+            for i in range(k):
+                if pattern == 'late-reply-taken-by-next':
+                    sc += [('T', 10 * MS), ('F', i, 'geb'[i % 3])]
+                elif pattern == 'split':
+                    sc += [('P', i, 'geb'[i % 3]), ('T', MS), ('Q',)]
+                else:
+                    sc.append(('F', i, 'geb'[i % 3]))
+            cases.append((cfg, sc))
     while len(cases) < n:
         cfg = cl.default_cfg(r, mt=r.choice([0, 0, 0, 2]), handles=1)
+        if r.random() < 0.25:
+            cfg['rtu'] = 1
         pre = cl.connected_prefix(r.choice('fx'))
         w = {'S': 6, 'F': 8, 'P': 1.5, 'Q': 6, 'T': 3, 'E': 0.3, 'D': 0.2, 'H': 0, 'A': 0.05, 'X': 0.1, 'W': 0.3, 'V': 0.2,
              'Z': 0.2, 'R': 0.2, 'G': 0.2, 'L': 0.2}
